@@ -531,6 +531,7 @@ fn main() {
          every lifecycle {active, retracted, superseded by an expired claim, superseded by a live claim} x every mode (6) x 7 validity windows (none, ended before, starts after, starts exactly at / ends exactly at an evaluation time, both boundaries, strictly inside) x stance, \
          alone (plain, functional own value, functional rival value) and next to a witness assertion placed to expose a wrongly admitted row; every interleaving of the ASSERT / RETRACT / SUPERSEDING statements, one transaction each; \
          projected at 3 evaluation times (FOR TIME) x 6 policies (baseline .7/.3, lax .5/.1, accept-only .9, material-only .1, forecast, modes [hypothetical, stated]) [pairs: the 3 mode sets]; compared with BeliefModel (status, groups, id sets, excluded list, scores, policy named) and across interleavings. \
+         read-coordinate dimension (stage 'read coordinates'): single-assertion histories in batches of 8 subjects sharing the predicate are projected at now AND at the snapshot taken right after recording (AS OF SEQ / read.snapshot_token, fresh and after later unrelated writes), at the 3 evaluation times; the lifecycle transitions are versions in the log, every read must match BeliefModel and the read at now. \
          distinct non-trivial = history in which some assertion is excluded at one of the queries and some assertion counts at one of them",
     );
     run.assume("validity windows and evaluation times from a 7-point yearly grid; replacement claims of superseded assertions are fixed (one expired, one live)");
